@@ -1,7 +1,7 @@
 (* C08 — time and async sources emit exactly what and when they promise. *)
 From RxModel Require Import Timed Async.
-From RxSpec Require Import TimedSpec.
-From RxProofs Require TimedLaws AsyncLaws IntervalAtLaws.
+From RxSpec Require Import TimedSpec RelayComplete.
+From RxProofs Require TimedLaws AsyncLaws IntervalAtLaws RelayCompleteLaws.
 Open Scope N_scope.
 
 (* For EVERY sequence of labels (polls of any task at any time, clock advances of any size,
@@ -50,6 +50,17 @@ Theorem C08_timer :
   forall v d ls, timer_ok v d ls (run_timed (TTimer v d) ls) = true.
 Proof. exact TimedLaws.timer_meets_spec. Qed.
 
+(* ... and it does emit: whenever its task is polled at a moment at which it is due (the timer its
+   first poll created has elapsed, or the delay is zero) before unsubscribe() returned, that very
+   poll delivers the item and the completion - for every sequence of labels *)
+Theorem C08_timer_complete :
+  forall v d ls, timer_complete d ls (run_timed (TTimer v d) ls) = true.
+Proof. exact RelayCompleteLaws.timer_is_complete. Qed.
+
+Example C08_timer_complete_rejects_a_lost_completion :
+  timer_complete 2 [LRun 0; LAdv 2; LRun 0] [TMark 0; TMark 1; TMark 2; TOut 2 (Next (VZ 9))] = false.
+Proof. vm_compute. reflexivity. Qed.
+
 (* from_future / from_stream (and the _result forms): whatever the number of polls, what has
    been delivered is a prefix of what the future / stream yields ... *)
 Theorem C08_async_prefix :
@@ -92,6 +103,7 @@ Check C08_interval_at_prompt_now : forall p n, 0 < p ->
 Check C08_prompt_case_exact : forall o n ls out, prompt_case o n = Some (ls, out) ->
     match o with TInterval p | TIntervalAt _ p => 0 < p | _ => True end -> run_timed o ls = out.
 Check C08_timer : forall v d ls, timer_ok v d ls (run_timed (TTimer v d) ls) = true.
+Check C08_timer_complete : forall v d ls, timer_complete d ls (run_timed (TTimer v d) ls) = true.
 Check C08_async_prefix : forall k n s, a_keep s = true -> a_finished s = false ->
     exists rest, yields k (a_script s) = AsyncLaws.outs (arun' k s (repeat APoll n)) ++ rest.
 Check C08_async_complete : forall k, (k = AStream \/ k = AStreamResult) ->
@@ -111,6 +123,7 @@ Print Assumptions C08_interval_at_prompt.
 Print Assumptions C08_interval_at_prompt_now.
 Print Assumptions C08_prompt_case_exact.
 Print Assumptions C08_timer.
+Print Assumptions C08_timer_complete.
 Print Assumptions C08_async_prefix.
 Print Assumptions C08_async_complete.
 Print Assumptions C08_future_complete.
